@@ -566,10 +566,51 @@ def install_hash_specs(I, owner):
 
     owner.GHash = GHash
 
+    owner.has_sur = z3.Function("has_lone_surrogate", Obj, z3.BoolSort())
+    owner.F_lossy = z3.Function("utf8_encode_lossy", Obj, Obj)
+
+    def encode(st, who, recv_obj, fn, args, kwargs, node):
+        """str.encode(encoding='utf-8', errors='strict'): strict raises UnicodeEncodeError for a string with lone surrogates,
+        'surrogatepass' is total and injective, the replacing handlers are total but lose information"""
+        encoding = kwargs.get("encoding", args[0] if args else "utf-8")
+        errors = kwargs.get("errors", args[1] if len(args) > 1 else "strict")
+        if not isinstance(encoding, str) or encoding.lower().replace("_", "-") not in ("utf-8", "utf8") or not isinstance(errors, str):
+            raise Unsupported(f"encode({encoding!r}, {errors!r})", node)
+        if errors == "surrogatepass":
+            return [(st, Sym(fn(recv_obj), "obj"))]
+        if errors != "strict":
+            return [(st, Sym(owner.F_lossy(recv_obj), "obj"))]
+        s2 = st.fork()
+        s2.assume(owner.has_sur(recv_obj))
+        e = Exc(UnicodeEncodeError, (), tag=f"encode:{who}", origin=ln(node))
+        e.from_call = f"str.encode({who})"
+        s2.trace.append(Event("call", "str.encode", [who], {}, e, lineno=ln(node)))
+        st.assume(z3.Not(owner.has_sur(recv_obj)))
+        return [(s2, Raised(e)), (st, Sym(fn(recv_obj), "obj"))]
+
+    def who_of(v):
+        try:
+            names = set()
+
+            def walk(t):
+                if z3.is_const(t) and t.decl().kind() == z3.Z3_OP_UNINTERPRETED:
+                    names.add(t.decl().name())
+                for c in t.children():
+                    walk(c)
+
+            walk(v.t)
+            return ",".join(sorted(n for n in names if "!" not in n)) or "?"
+        except Exception:
+            return "?"
+
     def h_method_obj(I_, st, args, kwargs, node):
         recv, name = args[0], args[1]
-        if name == "encode" and (len(args) == 2 or args[2:] == ["utf-8"]):
-            return [(st, Sym(owner.F_enc(recv.t), "obj"))]
+        if name == "encode":
+            return encode(st, who_of(recv), recv.t, owner.F_enc, list(args[2:]), kwargs, node)
+        if name == "replace" and len(args) == 4 and all(isinstance(a, str) for a in args[2:]) and not kwargs:
+            # some total function of the string (whether it keeps the key injective is decided by the bounded stand-in)
+            f = z3.Function(f"str.replace[{args[2]!r},{args[3]!r}]", Obj, Obj)
+            return [(st, Sym(f(recv.t), "obj"))]
         return None
 
     I.specs["method_obj"] = h_method_obj
@@ -577,10 +618,15 @@ def install_hash_specs(I, owner):
     def h_getattr_obj(I_, st, args, kwargs, node):
         from pyvc.values import BoundMethod
         o, name = args
-        return [(st, BoundMethod(o, name))] if name == "encode" else None
+        return [(st, BoundMethod(o, name))] if name in ("encode", "replace") else None
 
     I.specs["getattr_obj"] = h_getattr_obj
-    I.specs["str.encode"] = lambda I_, st, args, kwargs, node: [(st, Sym(owner.F_encs(to_term(args[0], "str")), "obj"))]
+
+    def h_str_encode(I_, st, args, kwargs, node):
+        from pyvc.smt import str2obj
+        return encode(st, who_of(args[0]), str2obj(to_term(args[0], "str")), lambda o: owner.F_encs(to_term(args[0], "str")), list(args[1:]), kwargs, node)
+
+    I.specs["str.encode"] = h_str_encode
 
     def h_sha1(I_, st, args, kwargs, node):
         (data,) = args
@@ -629,27 +675,190 @@ class ChecksumInjective(VC):
         self.s1, self.s2 = sym("source1", "obj"), sym("source2", "obj")
         x = z3.Const("inj_x", Obj)
         inv_e, inv_h = z3.Function("inv_encode", Obj, Obj), z3.Function("inv_sha1", Obj, Obj)
-        st.assume(z3.ForAll([x], inv_e(self.F_enc(x)) == x), z3.ForAll([x], inv_h(self.F_hex(x)) == x))
+        # collision freedom of utf-8 encoding and sha1: hypothesis of the injectivity clause only
+        self.collision_free = z3.And(z3.ForAll([x], inv_e(self.F_enc(x)) == x), z3.ForAll([x], inv_h(self.F_hex(x)) == x))
         clo = I.closure_of_function(B.BytecodeCache.get_source_checksum)
-        rs = I.call_closure(st, clo, [self.cache, self.s2], {})
-        if len(rs) != 1 or isinstance(rs[0][1], Raised) or rs[0][0] is not st:
+        rs = [(s_, v) for s_, v in I.call_closure(st, clo, [self.cache, self.s2], {}) if not isinstance(v, Raised)]
+        if len(rs) != 1 or rs[0][0] is not st:
             raise Unsupported("get_source_checksum forks")
         self.r2 = rs[0][1]
         return [self.cache, self.s1], {}
 
+    def p_total(self, pre, out):
+        """(hunt C27_1) computing the checksum never raises: a source that compiles and renders without a cache (lone
+        surrogates included) must load through a cache, at worst as a miss"""
+        return not out.raised
+
     def p_inj(self, pre, out):
         if out.raised:
-            return False
+            return None
         r1, r2 = to_term(out.value, "obj"), to_term(self.r2, "obj")
-        return z3.And(z3.Implies(r1 == r2, self.s1.t == self.s2.t), z3.Implies(self.s1.t == self.s2.t, r1 == r2))
+        return z3.Implies(self.collision_free, z3.And(z3.Implies(r1 == r2, self.s1.t == self.s2.t), z3.Implies(self.s1.t == self.s2.t, r1 == r2)))
 
-    posts = [("equal_checksums_iff_equal_sources", p_inj)]
+    posts = [("total", p_total), ("equal_checksums_iff_equal_sources", p_inj)]
 
     def concretize(self, model, pre, out):
+        if out.raised:
+            return {"raises": out.value.cls.__name__, "encoding": "source"}
         return {}
 
+    def finding_key(self, res):
+        w = res.witness or {}
+        return f"{w.get('raises')}:{w.get('encoding')}" if w.get("raises") else "injective"
+
     def replay(self, w):
+        if w.get("raises"):
+            return replay_surrogates(w)
         return replay_checksum(w)
+
+
+def replay_surrogates(w):
+    """hunt C27_1: names / file names / sources with lone surrogates load without a cache; with one they must load too"""
+    import shutil
+    from jinja2 import DictLoader, FunctionLoader
+    cases = {"source": ("t", "x\ud800y{{ 1 }}", None), "name": ("n\udcfe.html", "hi {{ 1 }}", None), "filename": ("t", "hello {{ 2 }}", "/tmp/x/tpl\udcff/t.html")}
+    order = [w.get("encoding")] if w.get("encoding") in cases else []
+    for which in order + [k for k in cases if k not in order]:
+        name, source, filename = cases[which]
+        load = FunctionLoader(lambda n, name=name, source=source, filename=filename: (source, filename, None) if n == name else None)
+        want = cached_render(jinja2.Environment(loader=load, cache_size=0), name)
+        for kind in ("fs", "memcached"):
+            d = tempfile.mkdtemp(prefix="c27s")
+            try:
+                cache = B.FileSystemBytecodeCache(d) if kind == "fs" else B.MemcachedBytecodeCache(MemClient())
+                env = jinja2.Environment(loader=load, bytecode_cache=cache, cache_size=0)
+                for attempt in ("first load", "second load"):
+                    got = cached_render(env, name)
+                    if got != want:
+                        return (True, f"lone surrogate in the template {which} ({name!r}, filename {filename!r}, source {source!r}): without a cache {want!r}, "
+                                      f"{attempt} through {type(cache).__name__} {got!r}")
+            finally:
+                shutil.rmtree(d, ignore_errors=True)
+    return (False, "names, file names and sources with lone surrogates load through the caches as they do without")
+
+
+def replay_key_collision(w):
+    """hunt C27_2: two templates with equal source whose (name, filename) pairs get the same cache key"""
+    import shutil
+    from jinja2 import FunctionLoader
+    pairs = [tuple(w["pair"][0]), tuple(w["pair"][1])] if w.get("pair") else [("a|b", None), ("a", "b")]
+    src = "{{ self }}"
+    table = {n: (src, f, None) for n, f in pairs}
+    if len(table) < 2:
+        table = None
+    d = tempfile.mkdtemp(prefix="c27k")
+    try:
+        if table is None:
+            # same name, different file names: two loaders sharing the cache directory
+            outs = []
+            for n, f in pairs:
+                env = jinja2.Environment(loader=FunctionLoader(lambda x, n=n, f=f: (src, f, None)), bytecode_cache=B.FileSystemBytecodeCache(d), cache_size=0)
+                t = env.get_template(n)
+                outs.append(((t.render(), t.name, t.filename), (n, f)))
+        else:
+            env = jinja2.Environment(loader=FunctionLoader(lambda x: table.get(x)), bytecode_cache=B.FileSystemBytecodeCache(d), cache_size=0)
+            outs = []
+            for n, f in pairs:
+                t = env.get_template(n)
+                outs.append(((t.render(), t.name, t.filename), (n, f)))
+        for (got, (n, f)) in outs:
+            plain = jinja2.Environment(loader=FunctionLoader(lambda x, n=n, f=f: (src, f, None)), cache_size=0).get_template(n)
+            want = (plain.render(), plain.name, plain.filename)
+            if got != want:
+                return (True, f"cache keys of {pairs[0]!r} and {pairs[1]!r} are equal ({B.BytecodeCache().get_cache_key(*pairs[0]) == B.BytecodeCache().get_cache_key(*pairs[1])}): "
+                              f"template {n!r} (filename {f!r}) loaded through the cache gives {got!r}, compiling its current source gives {want!r}")
+        return (False, f"templates {pairs!r} with equal sources are not served each other's code")
+    finally:
+        shutil.rmtree(d, ignore_errors=True)
+
+
+class CacheKeyTotal(VC):
+    """(hunt C27_1) get_cache_key never raises, whatever the name and the file name"""
+    prop = "C27"
+    target = "jinja2.bccache:BytecodeCache.get_cache_key"
+
+    def __init__(self):
+        VC.__init__(self, "C27", "C27.BytecodeCache.get_cache_key")
+
+    def configure(self, I):
+        install_hash_specs(I, self)
+
+    def setup(self, I, st):
+        self.cache = A.obj(st, B.BytecodeCache, "self")
+        self.name_, self.filename = sym("name", "obj"), sym("filename", "obj")
+        return [self.cache, self.name_, self.filename], {}
+
+    def p_total(self, pre, out):
+        return not out.raised
+
+    def p_reads(self, pre, out):
+        """the key is a function of the name and (when given) the file name"""
+        if out.raised:
+            return None
+        names = set()
+
+        def walk(t):
+            if z3.is_const(t) and t.decl().kind() == z3.Z3_OP_UNINTERPRETED:
+                names.add(t.decl().name())
+            for c in t.children():
+                walk(c)
+
+        walk(to_term(out.value, "obj"))
+        has_fn = self.filename.t != host_const(None)
+        return z3.And(z3.BoolVal("name" in names), z3.Implies(z3.BoolVal("filename" not in names), z3.Not(has_fn)))
+
+    posts = [("total", p_total), ("depends_on_name_and_filename", p_reads)]
+
+    def concretize(self, model, pre, out):
+        if out.raised:
+            ev = [e for e in out.st.trace if e.kind == "call" and e.name == "str.encode" and isinstance(e.result, Exc)]
+            return {"raises": out.value.cls.__name__, "encoding": ev[-1].args[0] if ev else "?"}
+        return {}
+
+    def finding_key(self, res):
+        w = res.witness or {}
+        return f"{w.get('raises')}:{w.get('encoding')}" if w.get("raises") else "reads"
+
+    def replay(self, w):
+        return replay_surrogates(w)
+
+
+def bounded_key_injective(task, tier, seed):
+    """(hunt C27_2) exhaustive small (name, filename) pairs through the real get_cache_key"""
+    alphabet = ["a", "b", "|", "\\"]
+    maxlen = 3 if tier == "quick" else 4
+    names = ["".join(t) for k in range(1, maxlen + 1) for t in itertools.product(alphabet, repeat=k)]
+    fnames = [None, ""] + names
+    c = B.BytecodeCache()
+    seen = {}
+    n = 0
+    first = None
+    count = 0
+    for nm in names + [""]:
+        for fn in fnames:
+            n += 1
+            k = c.get_cache_key(nm, fn)
+            if k in seen:
+                count += 1
+                if first is None:
+                    first = (seen[k], (nm, fn))
+            else:
+                seen[k] = (nm, fn)
+    task.bound_text = (f"all (name, filename) pairs with name and filename over the alphabet {alphabet!r} up to length {maxlen} (filename also None / empty): "
+                       f"{n} pairs through the real BytecodeCache.get_cache_key")
+    task.stats = {"pairs": n, "collisions": count}
+    rs = [Res("C27.bounded.cache_key_injective", "bounded-ok", "native", 0, f"{n} pairs, {n - count} distinct keys", "bounded")]
+    if first:
+        rs.append(Res("C27.bounded.cache_key_injective#p0", "refuted", "native", 0,
+                      f"{count} colliding pairs, first: get_cache_key{first[0]!r} == get_cache_key{first[1]!r}", "bounded", {"pair": [list(first[0]), list(first[1])]}))
+    return rs
+
+
+class KeyBounded(FnTask):
+    def finding_key(self, res):
+        (a, b) = (res.witness or {}).get("pair", [["?", "?"], ["?", "?"]])
+        cls = "separator-in-name" if ("|" in (a[0] or "") or "|" in (b[0] or "")) else "other"
+        return f"collision:{cls}"
 
 
 CONFIG_OPTIONS = ["block_start_string", "block_end_string", "variable_start_string", "variable_end_string", "comment_start_string",
@@ -1839,6 +2048,8 @@ TASKS = [
     BucketLoad(), BucketWrite(), RoundTrip(), GetBucket(), ChecksumInjective(), KeyConfig(),
     LoaderLoad(True), LoaderLoad(True, True), LoaderLoad(False),
     FsDump(), FsLoad(), FsClear(), MemLoad(), MemDump(),
+    CacheKeyTotal(),
+    KeyBounded("C27", "C27.bounded.cache_key_injective", bounded_key_injective, "bounded", replay_key_collision),
     FnTask("C27", "C27.tables", table_magic, "table", replay_load_family),
     Bounded("C27", "C27.bounded.truncation[fs]", bounded_truncation("fs"), "bounded", replay_truncation),
     Bounded("C27", "C27.bounded.truncation[memcached]", bounded_truncation("memcached"), "bounded", replay_truncation),
